@@ -229,6 +229,44 @@ Example T16h_example :
   modify_controller 3 2 7 true = Some (7, 0) /\ modify_controller 3 0 (-7) true = Some (-7, 2).
 Proof. vm_compute. split; reflexivity. Qed.
 
+(* ---------------------------------------------------------------- T16j: names identify controllers *)
+(* merge_controllers as GENERATED from controller.py is the hand-written one on sets of controllers *)
+Theorem T16_gen_merge_controllers : forall target source,
+  NoDup (map fst target) -> merge_controllers target source = m_merge target source.
+Proof. exact gen_merge_controllers. Qed.
+Print Assumptions T16_gen_merge_controllers.
+
+(* A formula is accepted by get_all_controllers (hence gets a central controller) iff controllers
+   of one name are one and the same Controller object, wherever they sit in the formula ... *)
+Theorem T16j_accepted_iff_one_object_per_name : forall t,
+  (exists l, all_controllers t = Some l) <-> consistent (objs_of t).
+Proof. exact accepted_iff_consistent. Qed.
+Print Assumptions T16j_accepted_iff_one_object_per_name.
+
+Theorem T16j_refused_iff_two_objects_share_a_name : forall t,
+  all_controllers t = None <-> ~ consistent (objs_of t).
+Proof. exact refused_witness. Qed.
+Print Assumptions T16j_refused_iff_two_objects_share_a_name.
+
+(* ... and the controllers of an accepted formula have pairwise distinct names (so the sorted
+   name:selection string determines the configuration, T16b) and are exactly those met *)
+Theorem T16j_accepted_controllers_have_distinct_names : forall t l,
+  all_controllers t = Some l ->
+  NoDup (map fst l) /\ (forall c, In c l <-> In c (objs_of t)) /\ consistent (objs_of t).
+Proof. exact accepted_distinct_names. Qed.
+Print Assumptions T16j_accepted_controllers_have_distinct_names.
+
+Example T16j_example :
+  (* one shared object "g"#1 used by two catalogs, one of them nested: accepted *)
+  all_controllers (ONode [OCat ("g", 1) [ONode []; OCat ("g", 1) [ONode []]]; OCat ("h", 2) []])%string
+    = Some [("g", 1); ("h", 2)]%string /\
+  (* two objects named "g" in the two operands of an operator / nested: refused *)
+  all_controllers (ONode [OCat ("g", 1) [ONode []]; ONode [OCat ("g", 3) []]])%string = None /\
+  all_controllers (OCat ("g", 1) [ONode [OCat ("g", 3) []]])%string = None /\
+  merge_controllers [("g", 1)]%string [("h", 2); ("g", 1)]%string = Some [("g", 1); ("h", 2)]%string /\
+  merge_controllers [("g", 1)]%string [("h", 2); ("g", 3)]%string = None.
+Proof. vm_compute. repeat split; reflexivity. Qed.
+
 (* ---------------------------------------------------------------- helper generators *)
 (* all catalogs returned by one call of segmentation_catalogs list the same specifications,
    whatever the parameter: they can share one controller (coherence hypothesis of T16e/f) *)
